@@ -309,7 +309,7 @@ func runC20(c *core.Ctx, o Options) {
 					fn.Name()+" "+what+" without DefaultHandler.mu (lockset "+ls.String()+"): a ResendRequest served meanwhile serializes the same stored object under that mutex — two goroutines write one message")
 			})
 		}
-		c.Check(n >= 3, "message-lock", "", "message operations on the handler's send path found", token.NoPos, fmt.Sprint(n), fmt.Sprintf("only %d found (two Range calls and ToBytes in send were confirmed)", n))
+		c.Check(n >= 2, "message-lock", "", "message operations on the handler's send path found", token.NoPos, fmt.Sprint(n), fmt.Sprintf("only %d found (a Range call and ToBytes at least)", n))
 	}
 	// captured-variable: a local variable shared with a callback that another goroutine runs (event handler, AfterFunc, go,
 	// registered message handler) is assigned only before the callback is created; a later assignment in the creating function
@@ -362,7 +362,7 @@ func runC20(c *core.Ctx, o Options) {
 	c.Extra["captured_cells"] = nCap
 	c.Extra["functions"] = len(fns)
 	c.Extra["guarded_accesses"] = nAcc
-	c.RuleMin = map[string]int{"atomic": 7, "complete": 6, "fresh-message": 3, "lockset": 31, "message-lock": 4}
+	c.RuleMin = map[string]int{"atomic": 7, "complete": 6, "fresh-message": 3, "lockset": 31, "message-lock": 3}
 	c.MinObl = 30
 }
 
